@@ -154,6 +154,21 @@ def e_str(ctx, depth=0):
     k = d(st.integers(0, 9 if depth < 2 else 2))
     if k == 9 and not ctx.js and d(st.booleans()):
         return e_fstring(ctx)
+    return _e_str(ctx, depth, k)
+
+
+def e_kwcall(ctx):
+    """Calls with a keyword argument after a comma (`, name=` inside an expression is not an assignment). Only for select items and UPDATE
+    right-hand sides: a single `=` anywhere in a WHERE expression is rejected by design."""
+    d = ctx.draw
+    if True:
+        f1, f2 = sfield(ctx, table='a'), sfield(ctx, table='a')
+        return mk(d(st.sampled_from(["{0}.split('-', maxsplit=1)[0]", "'{{x}}/{{y}}'.format(x={0}, y={1})", "sorted([{0}, {1}], key=len)[0]", "max({0}, {1}, key=len)", "{0}.encode('utf-8', errors='replace').decode('utf-8')",
+                                     "str({0}, ).strip('x', )", "(lambda p, q=1: p * q)({0}, q=2)", "dict(k={0}, v={1})['k']"])).format(f1['py'], f2['py']), None, 'str')
+
+
+def _e_str(ctx, depth, k):
+    d = ctx.draw
     if k <= 1:
         return sfield(ctx)
     if k == 2:
@@ -388,7 +403,10 @@ def st_join_table(draw, max_rows, max_width, pool, first_full, allow_empty_p=10)
     """Tables for join cases: the first 1-2 columns hold few distinct key values (so that
     multi-match and unmatched keys are common); columns beyond the first may be missing."""
     keypool = ['a', 'b', '', 'a', 'b', 'ab']       # few distinct keys: several B records per key and keys without partner are both common
-    if draw(st.integers(0, 3)) == 3:
+    if draw(st.integers(0, 7)) == 5:
+        # key texts that denote the same number but are different strings: a join compares keys as they are
+        keypool = ['7', '7.0', '7.00', '07', ' 7', '7 ', '+7', '7e0', '1.2', '1.20', '1.2.0', '8', '8.0']
+    elif draw(st.integers(0, 3)) == 3:
         # composite keys whose textual concatenation coincides although the tuples differ; digits that equal record numbers as text
         keypool = ['a', 'a,b', 'b', ',', '', '1', '2', 'a,', ',b', '3']
     width = draw(st.integers(1, max_width))
@@ -579,6 +597,8 @@ def st_select_items(ctx, nmin=1, nmax=5, stars=True, unnest=True, aliases=True, 
                           'gap': d(st.sampled_from(['', '', '', ' ', '  ', '\t']))})
         else:
             it = {'k': 'expr', 'e': e_any(ctx, hashable=hashable)}
+            if not ctx.js and d(st.integers(0, 14)) == 7:
+                it = {'k': 'expr', 'e': e_kwcall(ctx)}
             if aliases and d(st.integers(0, 4)) == 0:
                 it['alias'] = d(st.sampled_from(ALIAS_POOL))
                 it['as_kw'] = d(st.sampled_from(['AS', 'as']))
@@ -734,6 +754,8 @@ def st_case_update(draw, js=False, join_p=4, multi_match=False):
             rhs = both('str(NU) + {} + str(NR)', 'String(NU) + {} + String(NR)', 'str', strlit(ctx))
         elif k == 5 and join is not None:
             rhs = field(ctx, table='b')
+        elif k == 6 and not js and draw(st.booleans()):
+            rhs = e_kwcall(ctx)
         else:
             rhs = e_any(ctx)
         assign.append({'target': tgt, 'idx': idx, 'e': rhs, 'eq': draw(st.sampled_from(['=', ' =', '=  ']))})
